@@ -475,3 +475,179 @@ Proof.
   pose proof (proj1 (filter_In (fun c => str_eqb (rpkg_string c) (best_key (rpkg_string c0) (c0 :: cs))) c' (c0 :: cs)) Hc') as [_ H2].
   apply str_eqb_eq in H1, H2. congruence.
 Qed.
+
+(* ====================================================================== *)
+(* C09: the versions of a registry entry are a JSON object, i.e. a Go map: *)
+(* the order in which its members are visited does not matter              *)
+(* ====================================================================== *)
+From Coq Require Import Permutation.
+
+Lemma version_eqb_spec a b : version_eqb a b = true <-> a = b.
+Proof.
+  destruct a, b. unfold version_eqb. cbn. rewrite !andl_spec, !andb_true_iff, !N.eqb_eq, !str_eqb_eq.
+  split; [intros ((((-> & ->) & ->) & ->) & ->); reflexivity|intros [= -> -> -> -> ->]; tauto].
+Qed.
+
+Section AssocMore.
+  Context {K V : Type} (eqb : K -> K -> bool).
+  Hypothesis eqb_spec : forall a b, eqb a b = true <-> a = b.
+
+  Lemma alookup_aset k' k (v : V) l :
+    alookup eqb k' (aset eqb k v l) = if eqb k' k then Some v else alookup eqb k' l.
+  Proof.
+    induction l as [|[k0 v0] l IH]; cbn.
+    - reflexivity.
+    - destruct (eqb k k0) eqn:E.
+      + apply eqb_spec in E. subst k0. cbn. destruct (eqb k' k); reflexivity.
+      + cbn. rewrite IH. destruct (eqb k' k0) eqn:E0; [|reflexivity].
+        destruct (eqb k' k) eqn:E1; [|reflexivity].
+        apply eqb_spec in E0, E1. subst. rewrite (proj2 (eqb_spec k0 k0) eq_refl) in E. discriminate.
+  Qed.
+End AssocMore.
+
+(* what one member of the object contributes, when it is well formed *)
+Definition member_ok (mv : mversion) : option (version * (rpkg * str) * option deprecation) :=
+  match parse_version (mv_version mv) with
+  | None => None
+  | Some v => match parse_remote (mv_source mv) with
+              | Ok src => Some (v, src, mv_depr mv)
+              | _ => None
+              end
+  end.
+
+Definition later_wins (ms : list (version * (rpkg * str) * option deprecation)) (v : version)
+  : option ((rpkg * str) * option deprecation) :=
+  match find (fun m => version_eqb v (fst (fst m))) (rev ms) with
+  | Some m => Some (snd (fst m), snd m)
+  | None => None
+  end.
+
+Lemma find_app_ {A} (f : A -> bool) l1 l2 :
+  find f (l1 ++ l2) = match find f l1 with Some x => Some x | None => find f l2 end.
+Proof. induction l1 as [|a l1 IH]; cbn; [reflexivity|]. destruct (f a); [reflexivity|exact IH]. Qed.
+
+Lemma load_versions_ok : forall vs srcs deprs ms,
+  map member_ok vs = map Some ms ->
+  exists s d, load_versions vs srcs deprs = Ok (s, d) /\
+    forall v, alookup version_eqb v s = match later_wins ms v with Some x => Some (fst x) | None => alookup version_eqb v srcs end
+              /\ alookup version_eqb v d = match later_wins ms v with Some x => Some (snd x) | None => alookup version_eqb v deprs end.
+Proof.
+  induction vs as [|mv vs IH]; intros srcs deprs ms Hm.
+  - destruct ms; [|discriminate]. exists srcs, deprs. split; [reflexivity|]. intros v. split; reflexivity.
+  - destruct ms as [|m ms]; [discriminate|]. cbn [map] in Hm. injection Hm as Hm1 Hm2.
+    unfold member_ok in Hm1. cbn [load_versions].
+    destruct (parse_version (mv_version mv)) as [ver|]; [|discriminate].
+    destruct (parse_remote (mv_source mv)) as [src| |]; try discriminate. injection Hm1 as <-. cbn [rbind].
+    destruct (IH (aset version_eqb ver src srcs) (aset version_eqb ver (mv_depr mv) deprs) ms Hm2) as (s & d & Hl & Hq).
+    exists s, d. split; [exact Hl|]. intros v. destruct (Hq v) as [Hq1 Hq2].
+    unfold later_wins in *. cbn [rev]. rewrite find_app_.
+    destruct (find (fun m => version_eqb v (fst (fst m))) (rev ms)) as [m0|].
+    + split; assumption.
+    + cbn [find fst snd]. rewrite Hq1, Hq2, !(alookup_aset version_eqb version_eqb_spec).
+      destruct (version_eqb v ver); split; reflexivity.
+Qed.
+
+Lemma load_versions_bad : forall vs srcs deprs,
+  (exists mv, In mv vs /\ member_ok mv = None) -> forall r, load_versions vs srcs deprs <> Ok r.
+Proof.
+  induction vs as [|mv vs IH]; intros srcs deprs (bad & Hin & Hb) r; [destruct Hin|].
+  cbn [load_versions]. destruct Hin as [->|Hin].
+  - unfold member_ok in Hb. destruct (parse_version (mv_version bad)); [|discriminate].
+    destruct (parse_remote (mv_source bad)); try discriminate; cbn [rbind]; discriminate.
+  - destruct (parse_version (mv_version mv)); [|discriminate].
+    destruct (parse_remote (mv_source mv)); cbn [rbind]; try discriminate.
+    apply IH. eauto.
+Qed.
+
+Lemma all_members_ok vs : (forall mv, In mv vs -> member_ok mv <> None) -> exists ms, map member_ok vs = map Some ms.
+Proof.
+  induction vs as [|mv vs IH]; intros H; [now exists []|].
+  destruct (member_ok mv) as [m|] eqn:E; [|exfalso; apply (H mv); [now left|exact E]].
+  destruct IH as [ms Hms]; [intros x Hx; apply H; now right|]. exists (m :: ms). cbn. now rewrite E, Hms.
+Qed.
+
+Lemma find_unique_perm {A} (f : A -> bool) (l l' : list A) :
+  Permutation l l' -> (forall a b, In a l -> In b l -> f a = true -> f b = true -> a = b) -> find f l = find f l'.
+Proof.
+  intros Hp. induction Hp as [|x l l' Hp IH|x y l|l l' l'' Hp1 IH1 Hp2 IH2]; intros Hu.
+  - reflexivity.
+  - cbn. destruct (f x); [reflexivity|]. apply IH. intros a b Ha Hb. apply Hu; now right.
+  - cbn. destruct (f y) eqn:Ey, (f x) eqn:Ex; try reflexivity.
+    f_equal. apply Hu; [now left|right; now left|exact Ey|exact Ex].
+  - rewrite IH1 by exact Hu. apply IH2. intros a b Ha Hb. apply Hu; eapply Permutation_in; try eassumption; now apply Permutation_sym.
+Qed.
+
+Lemma members_decide vs :
+  (forall mv, In mv vs -> member_ok mv <> None) \/ (exists mv, In mv vs /\ member_ok mv = None).
+Proof.
+  induction vs as [|mv vs [IH|(bad & Hin & Hb)]].
+  - left. intros mv [].
+  - destruct (member_ok mv) eqn:E.
+    + left. intros x [<-|Hx]; [rewrite E; discriminate|now apply IH].
+    + right. exists mv. split; [now left|exact E].
+  - right. exists bad. split; [now right|exact Hb].
+Qed.
+
+Lemma later_wins_perm ms ms' v :
+  Permutation ms ms' ->
+  (forall a b, In a ms -> In b ms -> fst (fst a) = fst (fst b) -> a = b) ->
+  later_wins ms v = later_wins ms' v.
+Proof.
+  intros Hp Hu. unfold later_wins.
+  rewrite (find_unique_perm (fun m => version_eqb v (fst (fst m))) (rev ms) (rev ms')).
+  - reflexivity.
+  - now apply Permutation_rev'.
+  - intros a b Ha Hb Ea Eb. apply in_rev in Ha, Hb. apply version_eqb_spec in Ea, Eb.
+    apply Hu; [assumption|assumption|congruence].
+Qed.
+
+(* two visiting orders of the same members, no version named twice: the same map of
+   source addresses and deprecation notes, or a refusal in both cases *)
+Theorem load_versions_order_irrelevant vs vs' srcs deprs :
+  Permutation vs vs' ->
+  (forall a b ma mb, In a vs -> In b vs -> member_ok a = Some ma -> member_ok b = Some mb ->
+     fst (fst ma) = fst (fst mb) -> ma = mb) ->
+  match load_versions vs srcs deprs, load_versions vs' srcs deprs with
+  | Ok (s1, d1), Ok (s2, d2) =>
+      forall v, alookup version_eqb v s1 = alookup version_eqb v s2 /\ alookup version_eqb v d1 = alookup version_eqb v d2
+  | Ok _, _ | _, Ok _ => False
+  | _, _ => True
+  end.
+Proof.
+  intros Hp Hu.
+  destruct (members_decide vs) as [Hall|(bad & Hin & Hb)].
+  2:{ pose proof (load_versions_bad vs srcs deprs (ex_intro _ bad (conj Hin Hb))) as H1.
+      pose proof (load_versions_bad vs' srcs deprs (ex_intro _ bad (conj (Permutation_in _ Hp Hin) Hb))) as H2.
+      destruct (load_versions vs srcs deprs) as [r1| |]; [exfalso; now apply (H1 r1)| |];
+        (destruct (load_versions vs' srcs deprs) as [r2| |]; [exfalso; now apply (H2 r2)|exact I|exact I]). }
+  destruct (all_members_ok vs Hall) as [ms Hms].
+  assert (Hall' : forall mv, In mv vs' -> member_ok mv <> None).
+  { intros mv Hmv. apply Hall. eapply Permutation_in; [apply Permutation_sym; exact Hp|exact Hmv]. }
+  destruct (all_members_ok vs' Hall') as [ms' Hms'].
+  assert (Hpm : Permutation ms ms').
+  { apply (Permutation_map member_ok) in Hp. rewrite Hms, Hms' in Hp.
+    apply Permutation_map_inv in Hp. destruct Hp as (l3 & E3 & Hp3).
+    assert (l3 = ms) as ->.
+    { clear -E3. revert l3 E3. induction ms as [|m ms IH]; intros [|x l3] E; try discriminate; [reflexivity|].
+      cbn in E. injection E as E1 E2. subst x. f_equal. now apply IH. }
+    now apply Permutation_sym. }
+  assert (Hum : forall a b, In a ms -> In b ms -> fst (fst a) = fst (fst b) -> a = b).
+  { intros a b Ha Hb E.
+    assert (Hsa : In (Some a) (map member_ok vs)) by (rewrite Hms; now apply in_map).
+    assert (Hsb : In (Some b) (map member_ok vs)) by (rewrite Hms; now apply in_map).
+    apply in_map_iff in Hsa, Hsb. destruct Hsa as (xa & Exa & Hxa), Hsb as (xb & Exb & Hxb).
+    exact (Hu xa xb a b Hxa Hxb Exa Exb E). }
+  destruct (load_versions_ok vs srcs deprs ms Hms) as (s1 & d1 & -> & Hq1).
+  destruct (load_versions_ok vs' srcs deprs ms' Hms') as (s2 & d2 & -> & Hq2).
+  intros v. destruct (Hq1 v) as [A1 B1], (Hq2 v) as [A2 B2].
+  rewrite A1, B1, A2, B2, (later_wins_perm ms ms' v Hpm Hum). split; reflexivity.
+Qed.
+
+Example order_irrelevant_applies :
+  let a := {| mv_version := s2l "1.0.0"; mv_source := s2l "https://example.com/a.tgz"; mv_depr := None |} in
+  let b := {| mv_version := s2l "2.1.0"; mv_source := s2l "https://example.com/b.tgz"; mv_depr := None |} in
+  match load_versions [a; b] [] [], load_versions [b; a] [] [] with
+  | Ok (s1, _), Ok (s2, _) => length s1 = 2 /\ length s2 = 2 /\ s1 <> s2
+  | _, _ => False
+  end.
+Proof. vm_compute. split; [reflexivity|split; [reflexivity|discriminate]]. Qed.
